@@ -118,7 +118,7 @@ func runC07(c *Ctx) {
 	defer delete(c.notes, "c07env")
 	nEnv := c.Pick(2, 6)
 	for ei := 0; ei < nEnv; ei++ {
-		names := []string{"example.com", "origin-" + string(rune('a'+ei)) + ".example", strings.Repeat("x", 40+ei)}
+		names := []string{"example.com", "origin-" + string(rune('a'+ei)) + ".example/with/a/longer/path", strings.Repeat("x", 65+ei), "o"}
 		var nb [][]byte
 		for _, n := range names {
 			nb = append(nb, []byte(n))
@@ -154,7 +154,7 @@ func runC07(c *Ctx) {
 			must(err)
 			return st, st.Request().Marshal()
 		}
-		for k := 0; k < c.Pick(2, 4); k++ {
+		for k := 0; k < c.Pick(4, 8); k++ {
 			cl := newT3Client(r)
 			st, req := mkReq(cl, names[k%len(names)], e)
 			out := eval("honest", req, &st, nil)
@@ -166,7 +166,7 @@ func runC07(c *Ctx) {
 				c.Direct(err == nil, "client cannot finalize the response to its honest request", map[string]any{"request": hx(req)})
 			}
 			// every bit (sampled in quick)
-			stride := c.Pick(13, 1)
+			stride := c.Pick(29, 1)
 			for bit := r.IntN(stride); bit < len(req)*8; bit += stride {
 				m := append([]byte{}, req...)
 				m[bit/8] ^= 1 << (bit % 8)
